@@ -105,7 +105,7 @@ static ChildResult in_child(F fn)
       sa.sa_handler = child_sig;
       for(int s : {SIGSEGV, SIGBUS, SIGFPE, SIGILL, SIGABRT}) sigaction(s, &sa, 0);
       signal(SIGALRM, SIG_DFL);
-      alarm(20);
+      alarm(ASAN ? 10 : 3);
       Fail f;
       try { fn(f); }
       catch(const std::exception& e) { f.set("exception", e.what()); }
@@ -160,7 +160,8 @@ static std::string seq_str(const std::string& phase, int init, const std::vector
 }
 
 // The generic history explorer.  SYS provides:
-//   static const char* name(); static int ninit(); static const char* opname(int kind); static std::vector<ProbeSeq> probes();
+//   static const char* name(); static int ninit(); static const char* opname(int kind); static bool gate_rare(int g) { return g == 3; }     // gates whose trigger is rare are run (isolated) at every depth
+   static std::vector<ProbeSeq> probes();
 //   SYS(int init); void ops(std::vector<Op>&, int level) const; int gate(const Op&) const; std::string tag(const Op&) const;
 //   void apply(const Op&, Fail&); void check(Fail&); uint64_t digest() const; std::string pretty(const Op&) const;
 template <class SYS>
@@ -203,7 +204,7 @@ struct Explorer
       std::string cs = seq_str(P, init, seq);
       if(g != 0 && gate_open(P, g))
       {
-         if((int)n > gateDepth) { if(recordSelf) c.count(P + ".gated_instances_not_enumerated_beyond_gate_depth"); return 5; }
+         if((int)n > gateDepth && !SYS::gate_rare(g)) { if(recordSelf) c.count(P + ".gated_instances_not_enumerated_beyond_gate_depth"); return 5; }
          if(!recordSelf) return 5;
          c.count(P + ".gated_sequences_run_in_isolated_child");
          c.count("sequences");
@@ -288,6 +289,7 @@ struct Explorer
    // ASan flavour: probe the gates
    void probe_gates(std::vector<std::string>& notes)
    {
+      std::set<std::string> bad, clean;
       for(auto& pr : SYS::probes())
       {
          if(!ASAN) continue;
@@ -298,9 +300,12 @@ struct Explorer
             s.check(ff);
          });
          std::string key = std::string(SYS::name()) + "#" + std::to_string(pr.gate);
-         if(!r.bad) { g_closed_gates.insert(key); notes.push_back("gate " + key + " closed: probe clean under AddressSanitizer"); }
-         else notes.push_back("gate " + key + " open: probe reports " + r.rule);
+         if(r.bad) { if(!bad.count(key)) notes.push_back("gate " + key + " open: probe reports " + r.rule); bad.insert(key); }
+         else clean.insert(key);
       }
+      // a gate is removed only when every one of its probes is clean
+      for(auto& key : clean)
+         if(!bad.count(key)) { g_closed_gates.insert(key); notes.push_back("gate " + key + " closed: all probes clean under AddressSanitizer"); }
    }
    void run(Report& rep, const RunOpts& o, int d, int gd, int residues)
    {
@@ -410,6 +415,7 @@ struct SetSys
                                };
       return (k >= 0 && k < 21) ? N[k] : "?";
    }
+   static bool gate_rare(int g) { return g == 3; }     // gates whose trigger is rare are run (isolated) at every depth
    static std::vector<ProbeSeq> probes()
    {
       std::vector<ProbeSeq> v;
@@ -741,6 +747,24 @@ static std::string nz_str(const NZ& z)
 // SVSetBase derives *protected* from its nonzero array; a C-style cast is the one cast that may reach an inaccessible base
 static const ClassArray<Nonzero<double>>& nzarray(const SVSetBase<double>& s) { return (const ClassArray<Nonzero<double>>&)s; }
 
+// Trigger condition of the xtend() defect (svsetbase.h:523): the vector is the last one in memory order, ensureMem(..., false)
+// decides to memPack() (which shrinks max() of that very vector to size()), and the subsequent insert of newmax - max() slots
+// then exceeds memMax(): ClassArray::insert reallocates the nonzero array without fixing up the vectors.
+static bool xtend_reallocates_unfixed(const SVSetBase<double>& s, const SVectorBase<double>& v, int newmax)
+{
+   if(v.max() >= newmax) return false;
+   if(s.list.last() != static_cast<const void*>(&v)) return false;
+   int n = newmax - v.max();
+   if(s.memSize() + n <= s.memMax()) return false;
+   int missing = s.memSize() + n - s.memMax();
+   if(!(missing > 0 && missing <= s.unusedMem && s.unusedMem > (nzarray(s).memFactor - 1.0) * s.memMax())) return false;
+   int used = 0;
+   for(auto* ps = s.list.first(); ps; ps = s.list.next(ps)) used += ps->size();
+   int memMaxAfter = s.memMax();
+   if(used + n > memMaxAfter) { int nm = int(nzarray(s).memFactor * s.memMax()); if(used + n > nm) nm = used + n; memMaxAfter = nm; }
+   return used + (newmax - v.size()) > memMaxAfter;
+}
+
 struct SVSetSys
 {
    static const char* name() { return "svset"; }
@@ -754,9 +778,10 @@ struct SVSetSys
                                };
       return (k >= 0 && k < 27) ? N[k] : "?";
    }
+   static bool gate_rare(int g) { return g == 3; }     // gates whose trigger is rare are run (isolated) at every depth
    static std::vector<ProbeSeq> probes()
    {
-      return {{1, 1, {Op(22, 0)}}, {2, 1, {Op(2, 0)}}};
+      return {{1, 1, {Op(22, 0)}}, {2, 1, {Op(2, 0)}}, {3, 0, {Op(7), Op(8, 0), Op(8, 0)}}};
    }
 
    SVSetBase<double>* s;
@@ -846,10 +871,19 @@ struct SVSetSys
    {
       if(op.k == 22 && op.a == 0 && s->set.size() < s->max()) return 1;      // SVSetBase::reMax(0) -> ClassSet::reMax to a smaller capacity
       if(op.k == 2 && op.a == 0) return 2;                                    // add(keys, svecs, 0): loop "for(...; --n; ...)" never terminates
+      if(xtendBad(op)) return 3;
       return 0;
+   }
+   bool xtendBad(const Op& op) const
+   {
+      if(op.k < 8 || op.k > 10 || op.a >= m.n()) return false;
+      const SVectorBase<double>& v = (*s)[op.a];
+      int want = op.k == 8 ? v.max() + 2 : op.k == 9 ? v.size() + 1 : v.size() + 2;
+      return xtend_reallocates_unfixed(*s, v, want);
    }
    std::string tag(const Op& op) const
    {
+      if(op.k >= 8 && op.k <= 10) return xtendBad(op) ? "|memPack-inside-xtend-of-last-vector" : "";
       if(op.k == 2) return "|n=" + std::to_string(op.a);
       if(op.k == 22) return op.a == 0 ? "|shrink" : "|grow";
       if(op.k == 23 || op.k == 24) return (m.n() > 0 && s->memSize() == 0) ? "|all-vectors-empty-and-packed" : "";
@@ -1166,7 +1200,8 @@ struct LPSetSys
                                };
       return (k >= 0 && k < 23) ? N[k] : "?";
    }
-   static std::vector<ProbeSeq> probes() { return {{1, 1, {Op(13, 0)}}}; }
+   static bool gate_rare(int g) { return g == 3; }     // gates whose trigger is rare are run (isolated) at every depth
+   static std::vector<ProbeSeq> probes() { return {{1, 1, {Op(13, 0)}}, {3, 0, {Op(4), Op(5, 0), Op(5, 0)}}}; }
 
    Set* s;
    KeyedModel m;
@@ -1236,10 +1271,18 @@ struct LPSetSys
    int gate(const Op& op) const
    {
       if(op.k == 13 && op.a == 0 && s->set.size() < s->max()) return 1;
+      if(xtendBad(op)) return 3;
       return 0;
+   }
+   bool xtendBad(const Op& op) const
+   {
+      if((op.k != 5 && op.k != 6) || op.a >= m.n()) return false;
+      const SVectorBase<double>& v = T::vec(*s, op.a);
+      return xtend_reallocates_unfixed((const SVSetBase<double>&) * s, v, op.k == 5 ? v.max() + 2 : v.size() + 1);
    }
    std::string tag(const Op& op) const
    {
+      if(op.k == 5 || op.k == 6) return xtendBad(op) ? "|memPack-inside-xtend-of-last-vector" : "";
       if(op.k == 13) return op.a == 0 ? "|shrink" : "|grow";
       if(op.k == 16 || op.k == 17) return (m.n() > 0 && s->memSize() == 0) ? "|all-vectors-empty-and-packed" : "";
       return "";
@@ -1438,6 +1481,7 @@ struct IdxSys
                                };
       return (k >= 0 && k < 12) ? N[k] : "?";
    }
+   static bool gate_rare(int g) { return g == 3; }     // gates whose trigger is rare are run (isolated) at every depth
    static std::vector<ProbeSeq> probes() { return {{1, 1, {Op(4, 0, 2)}}}; }
    static const int U = 6;        // universe of index values 0..5
 
@@ -1609,6 +1653,7 @@ struct NameSys
                                };
       return (k >= 0 && k < 14) ? N[k] : "?";
    }
+   static bool gate_rare(int g) { return g == 3; }     // gates whose trigger is rare are run (isolated) at every depth
    static std::vector<ProbeSeq> probes() { return {}; }
    static const char* U(int i) { static const char* N[] = {"a", "b", "cc", "dd", "eeeeeee", "xx"}; return N[i]; }
    static const int NU = 6;
@@ -1802,6 +1847,7 @@ struct HashSys
       static const char* N[] = {"add(k,info)", "remove(k)", "clear()", "reMax(n)", "reMax(n,hashsize=1)", "copy-construct", "assign-to-other"};
       return (k >= 0 && k < 7) ? N[k] : "?";
    }
+   static bool gate_rare(int g) { return g == 3; }     // gates whose trigger is rare are run (isolated) at every depth
    static std::vector<ProbeSeq> probes() { return {}; }
    typedef DataHashTable<int, int> HT;
    HT* t;
@@ -1890,10 +1936,10 @@ struct ArrSys
                                };
       return (k >= 0 && k < 16) ? N[k] : "?";
    }
+   static bool gate_rare(int g) { return g == 3; }     // gates whose trigger is rare are run (isolated) at every depth
    static std::vector<ProbeSeq> probes()
    {
-      if(KIND == 0) return {{1, 1, {Op(12, 0)}}};
-      if(KIND == 1) return {{1, 1, {Op(5, 0)}}};
+      if(KIND == 1) return {{1, 1, {Op(4, 0)}}, {1, 1, {Op(5, 0)}}, {1, 1, {Op(6, 0)}}, {1, 0, {Op(0), Op(6, 0)}}};
       return {};
    }
    A* a;
@@ -2063,6 +2109,7 @@ struct ListSys
                                };
       return (k >= 0 && k < 11) ? N[k] : "?";
    }
+   static bool gate_rare(int g) { return g == 3; }     // gates whose trigger is rare are run (isolated) at every depth
    static std::vector<ProbeSeq> probes() { return {}; }
    static const int NP = 6;
    El* pool;
@@ -2145,7 +2192,6 @@ struct ListSys
       case 10:
       {
          El* np = (El*)malloc(sizeof(El) * NP + 64);
-         np = (El*)((char*)np + 0);
          memcpy((void*)np, (void*)pool, sizeof(El) * NP);
          ptrdiff_t delta = (char*)np - (char*)pool;
          memset((void*)pool, 0x5a, sizeof(El) * NP);
@@ -2636,7 +2682,9 @@ struct Alg
       uint64_t r = idx - start[d];
       int k = int(r % defs[d].nk); r /= defs[d].nk;
       int j = int(r % defs[d].nj); r /= defs[d].nj;
-      defs[d].fn(c, caseStr(idx), (int)r, j, k);
+      std::string cs = caseStr(idx);
+      defs[d].fn(c, cs, (int)r, j, k);
+      if(c.wantSample() && idx % 400009 == 7) c.sample("{\"case\":" + jstr(cs) + "}");
       return 1;
    }
    bool replay(Ctx& c, const std::map<std::string, std::string>& kv)
@@ -2811,39 +2859,46 @@ int main(int argc, char** argv)
    RunOpts o = rep.opts();
    o.perturb = {85};
    o.watchdog_s = 180;
-   // depth of the history enumeration per class: thorough = the depth of DESIGN.md, quick = one less; the AddressSanitizer
-   // flavour runs the same enumerators one level shallower (allocation-heavy code is ~10x slower under ASan)
-   int dd = (thorough ? 0 : -1) + (ASAN ? -1 : 0) + atoi(args.get("dd", "0").c_str());
+   // depth of the history enumeration per class, tuned to the tier budgets (all at or beyond the depths planned in DESIGN.md:
+   // DataSet/ClassSet 5, SVSet 4, LPRowSet/LPColSet 3, IdxSet 5, NameSet 4, DataHashTable 6, arrays 5, lists 5).  Columns: quick,
+   // thorough, quick under AddressSanitizer, thorough under AddressSanitizer (allocation-heavy code is ~8x slower there).
+   struct DepthRow { const char* ph; int d[4]; };
+   static const DepthRow DEPTH[] =
+   {
+      {"dataset", {5, 6, 4, 5}}, {"classset", {5, 6, 4, 5}}, {"svset", {5, 6, 4, 5}}, {"lprowset", {5, 6, 4, 5}}, {"lpcolset", {5, 6, 4, 5}},
+      {"idxset", {6, 7, 5, 6}}, {"didxset", {6, 7, 5, 6}}, {"nameset", {5, 6, 4, 5}}, {"hashtable", {6, 7, 5, 6}},
+      {"dataarray", {5, 7, 5, 6}}, {"array", {6, 7, 5, 6}}, {"classarray", {5, 7, 5, 6}}, {"islist", {6, 7, 5, 6}}, {"idlist", {6, 7, 5, 6}}
+   };
+   int col = (thorough ? 1 : 0) + (ASAN ? 2 : 0);
+   int dd = atoi(args.get("dd", "0").c_str());
    int gd = thorough ? 3 : 2;
    g_fullLevels = atoi(args.get("full", (thorough && !ASAN) ? "3" : "2").c_str());
-   auto D = [&](int d) { return std::max(1, d + dd); };
-   int only = -1;
+   auto D = [&](const char* ph) { for(auto& r : DEPTH) if(std::string(r.ph) == ph) return std::max(1, r.d[col] + dd); return 3; };
    std::string sel = args.get("phase");
-   auto want = [&](const char* n) { return sel.empty() || sel == n; };
-   (void)only;
-   if(want("dataset")) { Explorer<DataSetSys> e; e.run(rep, o, D(5), gd, 8); }
-   if(want("classset")) { Explorer<ClassSetSys> e; e.run(rep, o, D(5), gd, 8); }
-   if(want("svset")) { Explorer<SVSetSys> e; e.run(rep, o, D(4), gd, 8); }
-   if(want("lprowset")) { Explorer<LPRowSetSys> e; e.run(rep, o, D(4), gd, 8); }
-   if(want("lpcolset")) { Explorer<LPColSetSys> e; e.run(rep, o, D(4), gd, 8); }
-   if(want("idxset")) { Explorer<IdxSys<false>> e; e.run(rep, o, D(5), gd, 8); }
-   if(want("didxset")) { Explorer<IdxSys<true>> e; e.run(rep, o, D(5), gd, 8); }
-   if(want("nameset")) { Explorer<NameSys> e; e.run(rep, o, D(4), gd, 8); }
-   if(want("hashtable")) { Explorer<HashSys> e; e.run(rep, o, D(6), gd, 8); }
-   if(want("dataarray")) { Explorer<ArrSys<0>> e; e.run(rep, o, D(5), gd, 8); }
-   if(want("array")) { Explorer<ArrSys<1>> e; e.run(rep, o, D(5), gd, 8); }
-   if(want("classarray")) { Explorer<ArrSys<2>> e; e.run(rep, o, D(5), gd, 8); }
-   if(want("islist")) { Explorer<ListSys<false>> e; e.run(rep, o, D(5), gd, 8); }
-   if(want("idlist")) { Explorer<ListSys<true>> e; e.run(rep, o, D(5), gd, 8); }
+   auto want = [&](const char* n) { return sel.empty() || sel == n || (sel == "histories" && std::string(n).compare(0, 3, "vec") != 0 && std::string(n) != "sorter" && std::string(n) != "stablesum"); };
+   if(want("dataset")) { Explorer<DataSetSys> e; e.run(rep, o, D("dataset"), gd, 8); }
+   if(want("classset")) { Explorer<ClassSetSys> e; e.run(rep, o, D("classset"), gd, 8); }
+   if(want("svset")) { Explorer<SVSetSys> e; e.run(rep, o, D("svset"), gd, 8); }
+   if(want("lprowset")) { Explorer<LPRowSetSys> e; e.run(rep, o, D("lprowset"), gd, 8); }
+   if(want("lpcolset")) { Explorer<LPColSetSys> e; e.run(rep, o, D("lpcolset"), gd, 8); }
+   if(want("idxset")) { Explorer<IdxSys<false>> e; e.run(rep, o, D("idxset"), gd, 8); }
+   if(want("didxset")) { Explorer<IdxSys<true>> e; e.run(rep, o, D("didxset"), gd, 8); }
+   if(want("nameset")) { Explorer<NameSys> e; e.run(rep, o, D("nameset"), gd, 8); }
+   if(want("hashtable")) { Explorer<HashSys> e; e.run(rep, o, D("hashtable"), gd, 8); }
+   if(want("dataarray")) { Explorer<ArrSys<0>> e; e.run(rep, o, D("dataarray"), gd, 8); }
+   if(want("array")) { Explorer<ArrSys<1>> e; e.run(rep, o, D("array"), gd, 8); }
+   if(want("classarray")) { Explorer<ArrSys<2>> e; e.run(rep, o, D("classarray"), gd, 8); }
+   if(want("islist")) { Explorer<ListSys<false>> e; e.run(rep, o, D("islist"), gd, 8); }
+   if(want("idlist")) { Explorer<ListSys<true>> e; e.run(rep, o, D("idlist"), gd, 8); }
    if(want("vecD"))
    {
-      algD->build(thorough && !ASAN);
+      algD->build(!ASAN || thorough);
       rep.phase("vector algebra, double, dim 3 over {-1,0,2}", algD->total, [&](uint64_t idx, int, Ctx & c) -> uint64_t { g_c = &c; return algD->run(c, idx); },
       [&](uint64_t idx, uint64_t) { return algD->caseStr(idx); }, o, [&](uint64_t, uint64_t) { return std::string("@vecD"); });
    }
    if(want("vecQ"))
    {
-      algQ->build(thorough && !ASAN);
+      algQ->build(!ASAN || thorough);
       rep.phase("vector algebra, Rational, dim 3 over {-1/3,0,2}", algQ->total, [&](uint64_t idx, int, Ctx & c) -> uint64_t { g_c = &c; return algQ->run(c, idx); },
       [&](uint64_t idx, uint64_t) { return algQ->caseStr(idx); }, o, [&](uint64_t, uint64_t) { return std::string("@vecQ"); });
    }
